@@ -276,6 +276,17 @@ def gen_fuzz_cases(r, tier, sds):
                 vc = imp[:45] + rest[:20]
             for ops, kind in vc:
                 add(s[0], ops, s[2], kind.replace("key0", "other"))
+    # (b7) cycles and self-references: NestedClass enclosing chains of length 1, 2, 3, TypeDef.Extends loops, resource directories pointing at themselves,
+    #      their parent or the root (a walk that does not bound its depth never ends / exhausts the stack: timeout or crash of the forked child)
+    for s in sds:
+        if s[2] in ("pe", "dotnet") and len(s[1]) <= (420000 if quick else 3000000):
+            cc = M.cycle_cases(r, s[1])
+            if quick and len(cc) > 150:
+                keep = [c for c in cc if c[1] in ("cycle:NestedClass-1edit", "cycle:NestedClass-self", "cycle:NestedClass-2") or c[1].startswith("cycle:TypeDef")]
+                rest = [c for c in cc if c not in keep]
+                r.shuffle(rest); cc = keep[:200] + rest[:60]
+            for ops, kind in cc:
+                add(s[0], ops, s[2], kind)
     # (c) truncation at every structure boundary of every seed (all deltas for the smallest seed of each format)
     for fmt in fmts:
         small = min(per_fmt[fmt], key=lambda s: len(s[1]))
